@@ -154,6 +154,7 @@ def plan(tier, seed):
         shards.append(("assignlabels", gi, tier))
     for ci in range(4):
         shards.append(("saveindexing", ci, 4))
+    shards.append(("grainfile",))
     vs = [(4097, 2, 2), (8193, 2, 2), (8193, 3, 1)] if tier == "quick" else \
         [(4097, 2, 3), (8193, 2, 3), (8193, 3, 2), (12289, 3, 2), (12289, 2, 3), (8193, 4, 1), (16385, 4, 1)]
     for ng, T, b in vs:
@@ -521,8 +522,12 @@ def _assignlabels_flavour(sh, gi, tier, flavour):
                     sh.violation("assignlabels:stored-error-not-minimum", case, {"peak": k, "drlv2": float(drl[k]), "best": float(best[k])}); ok = False
                 if ok:
                     for pos in range(4):
-                        if o.grains[(names[pos], os.path.join(wd, "p.flt"))].npks != int((labels == names[pos]).sum()):
-                            sh.violation("assignlabels:grain-peak-count-not-histogram", dict(case, grain=pos), {}); break
+                        if getattr(o.grains[(names[pos], os.path.join(wd, "p.flt"))], "npks", None) != int((labels == names[pos]).sum()):
+                            sh.violation("assignlabels:grain-peak-count-not-histogram", dict(case, grain=pos),
+                                         {"npks": getattr(o.grains[(names[pos], os.path.join(wd, "p.flt"))], "npks", "no such attribute"),
+                                          "labelled": int((labels == names[pos]).sum())})
+                            ok = False
+                            break
                 if ok and two_scans:
                     qkey = os.path.join(wd, "q.flt")
                     lq = np.asarray(o.scandata[qkey].labels).astype(int)
@@ -532,9 +537,9 @@ def _assignlabels_flavour(sh, gi, tier, flavour):
                     else:
                         for pos in range(4):
                             for key_, lab_ in ((os.path.join(wd, "p.flt"), labels), (qkey, lq)):
-                                if o.grains[(names[pos], key_)].npks != int((lab_ == names[pos]).sum()):
+                                if getattr(o.grains[(names[pos], key_)], "npks", None) != int((lab_ == names[pos]).sum()):
                                     sh.violation("assignlabels[two scans]:grain-peak-count-not-the-histogram-of-its-own-scan", dict(case, grain=pos),
-                                                 {"scan": os.path.basename(key_), "npks": int(o.grains[(names[pos], key_)].npks),
+                                                 {"scan": os.path.basename(key_), "npks": getattr(o.grains[(names[pos], key_)], "npks", "no such attribute"),
                                                   "labelled": int((lab_ == names[pos]).sum())})
                                     break
                 if ok and flavour == "displaced" and tuple(order) in ((0, 1, 2, 3), (2, 0, 3, 1)) and nt == 1:
@@ -562,6 +567,24 @@ def _assignlabels_flavour(sh, gi, tier, flavour):
                                                                                                                    "tolerance_attribute_now": float(o.tolerance)})
                     elif (~none3 & ~border3 & ~(np.abs(lab_err3 - em3.min(axis=0)) <= 1e-7)).any():
                         sh.violation("assignlabels[after refinepositions]:not-best-grain", hcase, {})
+                    sh.evaluations += 1
+                if ok and tuple(order) in ((1, 0, 2, 3), (3, 2, 1, 0)) and nt == 1:
+                    # history: one grain of the object is replaced by an orientation that fits no peak (40 degrees away), then the assignment
+                    # again: its count and its peak list are those of the labels of THIS assignment (none), not of the one before
+                    fkey = os.path.join(wd, "p.flt")
+                    gone = o.grains[(names[1], fkey)]
+                    gone.set_ubi(np.dot(np.array(gone.ubi, float), O.rotation_from_axis_angle((2, -1, 5), 40.0).T))
+                    with contextlib.redirect_stdout(io.StringIO()):
+                        o.assignlabels(quiet=True)
+                    l4 = np.asarray(o.scandata[fkey].labels).astype(int)
+                    hcase = dict(case, history=["assignlabels", "grain %d replaced by a far orientation" % names[1], "assignlabels"])
+                    for pos in range(4):
+                        g_ = o.grains[(names[pos], fkey)]
+                        n4 = int((l4 == names[pos]).sum())
+                        if int(g_.npks) != n4 or len(g_.ind) != n4 or len(g_.sc) != n4 or not np.array_equal(np.sort(np.asarray(g_.ind)), np.nonzero(l4 == names[pos])[0]):
+                            sh.violation("assignlabels[grain replaced, assigned again]:grain-count-or-peak-list-not-those-of-the-labels", dict(hcase, grain=pos),
+                                         {"npks": int(g_.npks), "len_ind": len(g_.ind), "len_sc": len(g_.sc), "labelled": n4})
+                            break
                     sh.evaluations += 1
                 sh.borderline += int(border.sum())
                 sh.evaluations += 1
@@ -651,6 +674,10 @@ def _run_sched(desc):
 
 
 def run_shard(desc):
+    if desc[0] == "grainfile":
+        # the grain file refinegrains.readubis starts from (shared with C09): positions known / unknown in every pattern
+        from vt.props import c09
+        return c09._run_grainfile(desc)
     if desc[0] == "seq":
         return _run_seq(desc)
     if desc[0] == "hist":
@@ -669,6 +696,9 @@ def replay(case):
     indexing.loglevel = 3
     sh = Shard()
     os.environ["VERIF_SEED"] = str(case.get("seed", 0))
+    if case["kind"] == "grainfile":
+        from vt.props import c09
+        return c09.replay(case)
     if case["kind"] == "assignlabels":
         gi = [g_ for g_ in range(32) if (g_ * 5) % 128 == case["geometry"]][0]
         r = _run_assignlabels(("assignlabels", gi, "quick"))
